@@ -236,6 +236,11 @@ def closure_events(a, cl, region=None):
             own = Poly.atom(("cell", (s["cell"][0], ())))
             d = s["val"][1] - own
             absd = [s["val"][1] - ix for (_k, _d, ix) in indexed if (s["val"][1] - ix).is_const()]
+            # ... or next to a slot that an `enumerate()` pairs with its index: item = (k, slot k), `*pos = k + 1`
+            eidx = Poly.atom(("proj", ("proj", ("V", "arg", 2), (0,))))
+            if not absd and (s["val"][1] - eidx).is_const() and any(e[2] in ("read", "write") and "'arg', 2" in e[3] for e in ev):
+                absd = [s["val"][1] - eidx]
+                a.__dict__["enum_abs"] = True
             if d.is_const():
                 ev.append((s["site"][0], s["site"][1], "inc", (k, d.const_value(), None), s))
             elif absd:
@@ -336,6 +341,7 @@ def check_closure_protocol(a, cl, region=None):
     # fits the traversal direction and the kind of position is the parent's obligation (ownership.link_closure)
     info["abs"] = {e[3][0]: e[3][1][1] for evs in by_bb.values() for e in evs if e[2] == "inc" and isinstance(e[3][1], tuple)}
     info["indexed"] = list(getattr(a, "indexed_slots", [])) if region is None else []
+    info["enum_abs"] = bool(getattr(a, "enum_abs", False)) if region is None else False
     reads = any(e[2] == "read" for evs in by_bb.values() for e in evs)
     writes = any(e[2] == "write" for evs in by_bb.values() for e in evs)
     if not reads and not writes:
